@@ -16,6 +16,10 @@ def eval (fn : String) (args : List String) (impl : String) : Option Verdict := 
     pure { model := "ok",
            propFails := if impl == "ok" then [] else
              [s!"C17 a {what} notification after the event loop has ended: {impl} (must be discarded without a fault)"] }
+  | "stop.burst" =>
+    pure { model := "ok",
+           propFails := if impl == "ok" then [] else
+             [s!"C17 pipelined requests from concurrent peers ({String.intercalate " " args}): {impl} — every request must be handled exactly once and answered with its own sequence number"] }
   | "stop.stress" =>
     let want := "races=0 crash=0 exited=1"
     pure { model := want,
@@ -26,12 +30,18 @@ def eval (fn : String) (args : List String) (impl : String) : Option Verdict := 
     let v := ownerViolations.map fun a =>
       s!"C17 ownership: {a.fn} (reachable from goroutine root {a.root}) performs {a.kind} on {a.typ}.{a.field} outside the owner goroutine"
     let c := cycleEdges.map fun e =>
-      s!"C18 blocking cycle: {e.1} blocks on {e.2.1}, drained only by {e.2.2}, which can in turn be blocked on the former sig=cyc:{short e.1}>{short e.2.2}"
+      s!"C18 blocking cycle: {e.1} waits on {e.2.1} for {e.2.2}, which can in turn be waiting for the former sig=cyc:{short e.1}>{(e.2.1.splitOn ".").getLastD ""}>{short e.2.2}"
     pure { model := "ok", propFails := v ++ c }
   | "wedge.run" =>
+    -- the known wedge needs more timer events in one loop turn than the periodic server's queue holds AND more sessions in
+    -- one tick than the report queue holds; a wedge below either size is something else
+    let num (k : String) : Nat := (args.findSome? fun a => if a.startsWith (k ++ "=") then ((a.drop (k.length + 1)).toString).toNat? else none).getD 0
+    let evtCap := (chanCaps.lookup "perio.Server.evtCh").getD 0
+    let srCap := (chanCaps.lookup "pfcp.PfcpServer.srCh").getD 0
+    let known := num "sessions" * num "urrs" > evtCap && num "sessions" > srCap
     pure { model := "alive",
            propFails := if impl == "alive" then [] else
-             [s!"C18 burst ({String.intercalate " " args}): the UPF stopped answering ({impl}): event loop and periodic server block each other sig=wedge:perioLoop"] }
+             [s!"C18 burst ({String.intercalate " " args}): the UPF stopped answering ({impl}) sig={if known then "wedge:perioLoop" else "wedge:below-queue-sizes"}"] }
   | _ => none
 
 end UpfVerif.Driver.ConcD
